@@ -115,6 +115,8 @@ def groups(tier, rng):
     return [Group("accept2/two-listeners-close-error", two, project=project, theorems=THEOREMS),
             Group("accept/outcome-sequences", acc, exhaustive=(tier == "thorough"), project=project, theorems=THEOREMS, monitor=False),
             Group("accept/hanging-connections", hang, project=project, theorems=THEOREMS, monitor=False),
+            Group("lateserve/serve-after-the-end", ["lateserve\t%s\t%s" % (e, o) for e in ("close", "shutdown") for o in ("after", "race")
+                                                       for _ in range(2 if tier == "quick" else 20)], project=lambda c, a: a, theorems=THEOREMS),
             Group("multi/connections-of-one-server", multi_cases(tier, rng), project=lambda c, a: a.split("\t")[0], theorems=THEOREMS, monitor=False),
             Group("sched/delivery-orders", sched_cases(tier, rng), project=project, theorems=THEOREMS, monitor=False),
             # the command loop does not wait for the delivery goroutine (`latestart`): the peer is gone before the delivery starts
